@@ -256,9 +256,9 @@ def _get_next_fragment(cname):
         data, md = opt_bytes(E, 'data', 'bytes'), opt_bytes(E, 'metadata', 'bytes')
         E.setattr(base, 'data', data)
         E.setattr(base, 'metadata', md)
-        fs = E.fresh_int('fs', 64) if E.path.choice(2, 'fs') else None
+        fs = E.input('fs', E.fresh_int('fs', 64)) if E.path.choice(2, 'fs') else None
         E.setattr(base, 'fragment_size_bytes', fs)
-        lh = E.fresh_bool('requires_length_header')
+        lh = E.input('requires_length_header', E.fresh_bool('requires_length_header'))
         made = []
         exhausted = E.path.choice(2, 'generator-exhausted') == 1
         nxt = E.call(E.lookup(FRAG), [E.fresh_bytes('fd'), E.fresh_bytes('fm')], dict(is_last=False, is_first=False))
@@ -284,7 +284,19 @@ def _get_next_fragment(cname):
         else:
             P('next_fragment:generator_created_from_own_payload',
               len(made) == 1 and made[0][0][0] is data and made[0][0][1] is md and made[0][0][2] == FRAGMENTABLE[cname]
-              and made[0][0][3] is fs and made[0][0][4] is lh and not made[0][1])
+              and made[0][0][4] is lh and not made[0][1])
+            size_arg = made[0][0][3] if len(made) == 1 and len(made[0][0]) > 3 else fs
+            if size_arg is fs:
+                P('next_fragment:fragmenter_gets_the_configured_size', True)
+            else:
+                # a shortcut that skips fragmentation is only legitimate when the frame really fits: its true wire length
+                # (header, 3-byte metadata length when there is metadata, metadata, data, 3-byte length prefix when the
+                # transport needs one) is within the configured size
+                mlen = lift_bytes(md).len_term() if md is not None else z3.IntVal(0)
+                dlen = lift_bytes(data).len_term() if data is not None else z3.IntVal(0)
+                wire = FRAGMENTABLE[cname] + z3.If(mlen > 0, 3 + mlen, 0) + dlen + z3.If(B(lh), 3, 0)
+                P('next_fragment:fragmentation_skipped_only_if_the_frame_fits_the_configured_size',
+                  size_arg is None and fs is not None and wire <= I(fs))
         P('next_fragment:keeps_generator', E.getattr(base, 'fragment_generator') is gen)
         P('next_fragment:exactly_one_step', len(log.of(gen, '__next__')) == 1)
         if exhausted:
@@ -296,7 +308,7 @@ def _get_next_fragment(cname):
 
 
 for _c in FRAGMENTABLE:
-    harness('c03.get_next_fragment[%s]' % _c, ['C03'],
+    harness('c03.get_next_fragment[%s]' % _c, ['C03'], replay='c03_get_next_fragment',
             functions=[FR + 'FrameFragmentMixin.get_next_fragment', FR + 'get_header_length'],
             assumptions=['generator protocol: successive __next__() calls return the successive yields of the generator body, '
                          'then raise StopIteration (Python semantics)'])(_get_next_fragment(_c))
